@@ -263,6 +263,8 @@ def jobs(tier):
         for blk in blocks(2, [0, 1], nested=True):
             if any(b.get("inner") for b in blk["br"]):
                 js.append(E1("checks.c12", "CondH", {"encl": "t", "block": blk}, replay_cap=2))
+                if not blk["nb"] or not blk["prio"]:
+                    js.append(E1("checks.c12", "CondH", {"encl": "m1c", "block": blk}, replay_cap=2))
         for blk in blocks(2, [1, 2]):
             js.append(E1("checks.c12", "CondH", {"encl": "t", "block": blk, "val": True}, replay_cap=2))
     else:
